@@ -157,7 +157,7 @@ def shard(rec, tier, index, n_shards):
         rec.count("high_order_cases")
         do(case)
     # every output format of a few simple shapes (engine.output_exhaustive_cases)
-    for case in engine.output_exhaustive_cases(rng, index, n_shards, draws=3 if tier == "quick" else 8):
+    for case in engine.output_exhaustive_cases(rng, index, n_shards, draws=3 if tier == "quick" else 8, light_order4=(tier == "quick")):
         if "s" not in case.formats[case.target[1]]:
             continue
         rec.count("every_output_format_cases")
